@@ -3,7 +3,9 @@ ID = 'C12'
 LEVEL = 'exploration'
 LEVEL_TEXT = ('bounded: a fixed probe battery (global modes, stand-alone constructors, reference sheets and style texts parsed and serialised, validation, DOM edits that must raise) gives the same '
               'answers after every sequence of <= 2 (quick) / <= 3 (thorough) calls from a disturbance pool (malformed input, undecodable bytes with an encoding given, a fetcher that raises, a missing '
-              'file, a parser in raising mode, stand-alone MediaQuery / MediaList / PropertyValue / Selector constructors with rejected text, rejected DOM edits, csscombine) as in a fresh process; '
+              'file, a parser in raising mode, stand-alone MediaQuery / MediaList / PropertyValue / Selector constructors with rejected text, rejected DOM edits, csscombine) as in a fresh process, and after earlier calls whose text has ONE stray token (15 quick / 22 thorough token kinds) at each of 80 slots before / inside / behind '
+              'every part of every construct (sheet, selector, declaration, value, priority, every at-rule with prelude and block), through parseString / parseStyle of a default and of a raising parser and through the '
+              'stand-alone DOM constructors of the sub-parsers in raising and log-only mode (quick: as grouped histories, every call in two of them; thorough: every call alone as well); '
               'cssutils.log.raiseExceptions, vars(cssutils.ser.prefs), id(cssutils.ser), cssutils.profile.profiles and defaultProfiles are equal before and after every parse / csscombine call of the '
               'pool, returning or raising, under 12 ambient settings; one CSSParser object reused over several rounds gives the results of a fresh parser')
 LEVEL_NOTE = ('no deductive part yet: holds for the fixed pool, battery and sequence length only; state that none of the battery probes reads would go unnoticed; every sequence runs in a process '
@@ -15,6 +17,7 @@ DESIGN_REF = 'DESIGN.md section 3, C12'
 def bounded(ctx):
     from bounded import c12
     c12.histories(ctx)
+    c12.stray_tokens(ctx)
     c12.modes(ctx)
     c12.reuse(ctx)
 
